@@ -243,6 +243,7 @@ impl Machine {
             let _ = compare_step(&mut r, ev, &obs);
             calls += 1;
         }
+        subject::fire_other_ctx_hook();
         let mut diffs = vec![];
         let mut last_obs = None;
         for (k, &i) in idx.iter().enumerate() {
